@@ -27,15 +27,30 @@ func hexOrDash(b []byte) string {
 }
 
 // decOutcome renders the result of a TakeFrom call.
+// heldWant: the last want-larger-buffer answer is kept; an answer a caller still holds must not change when
+// other messages are decoded afterwards (reported as " held=changed" on the decode that changed it)
+var heldWant *wt.WantLargerBufferError
+var heldWantSize int
+
 func decOutcome(rest []byte, err error, fields func() string) string {
+	changed := ""
+	if heldWant != nil && heldWant.WantedBufSize != heldWantSize {
+		changed = " held=changed"
+		heldWant = nil
+	}
 	if err != nil {
 		var w *wt.WantLargerBufferError
 		if errors.As(err, &w) {
-			return fmt.Sprintf("want %d", w.WantedBufSize)
+			if changed == "" && heldWant != nil && heldWant.WantedBufSize != heldWantSize {
+				changed = " held=changed"
+			}
+			size := w.WantedBufSize
+			heldWant, heldWantSize = w, size
+			return fmt.Sprintf("want %d%s", size, changed)
 		}
-		return "err"
+		return "err" + changed
 	}
-	return fmt.Sprintf("ok %s rest=%s", fields(), hexOrDash(rest))
+	return fmt.Sprintf("ok %s rest=%s%s", fields(), hexOrDash(rest), changed)
 }
 
 // appendCheck: AppendTo appends -- encoding after other content (a destination that is not empty, with
